@@ -52,7 +52,7 @@ class DVSession(object):
         for s in shape:
             n *= s
         items = [DV({('x', c)}, kind, 'any', sel={('x', c)}) for c in range(n)]
-        return Arr(tuple(shape), items) if shape != () else Arr((), items)
+        return Arr(tuple(shape), items, kind=kind if kind in ('i', 'c') else 'f')
 
 
 def explore(repo, body, max_paths=64, pinned=None):
@@ -116,7 +116,7 @@ def bicomplex_aware(session, fn_scalar):
     return f
 
 
-def tensor_f(session, n, out_shape, kind='f'):
+def tensor_f(session, n, out_shape, kind='f', exact_kind=None):
     """f: R^n -> R^out_shape in the DV domain.  Output element i carries the tag ('f', i, perturbed) where
     perturbed is the tuple of coordinates k whose argument is not exactly x_k; the value at the unperturbed
     x has note 'f(x)'.  Bicomplex arguments give a Bicomplex result."""
@@ -150,6 +150,8 @@ def tensor_f(session, n, out_shape, kind='f'):
                 knd = 'c'
         pert = tuple(pert)
         note = 'f(x)' if not pert else None
+        if not pert and exact_kind is not None:
+            knd = exact_kind              # e.g. integer arithmetic at an integer point gives an integer f(x)
         vals = [DV({('f', i, pert)} | xt, knd, 'any', note=note) for i in range(size)]
         out = Arr(tuple(out_shape), vals) if out_shape != () else vals[0]
         if is_bic:
